@@ -24,7 +24,7 @@ m=json.load(open(p))
 m['confirmed_by_me']={'ran':'tools/seedcheck.sh (scratch worktree of /repo HEAD: apply patch, go build, full suite, demo with change, checks, demo without change)','result':res}
 checks=dict(re.findall(r'(C\d\d)=exit(\d)',res))
 m['checks']={k:('DETECTED' if v=='1' else 'missed' if v=='0' else 'checker-error') for k,v in checks.items()}
-m['check_report']=[l for l in out.splitlines() if re.match(r'^[\w/.-]*:\d*:?\d*:? ?C\d\d\.',l) or l.startswith(': C')][:6]
+m['check_report']=[l for l in out.splitlines() if re.match(r'^[\w/.-]*:\d*:?\d*:? ?(C\d\d|PLATFORM|IMPORT)\.',l) or l.startswith(': C')][:6]
 json.dump(m,open(p,'w'),indent=1)
 PY
 echo "ADOPTED $id"
